@@ -162,13 +162,20 @@ class C06(BaseCheck):
     orig_try_expand = lb._TryExpandAperture
 
     jitter_leave = []
+    chosen_left = []
 
     def try_expand(leave_pending=False):
       if leave_pending and env.log_yields is not None and lb._idle_endpoints and rng.random() < 0.5:
         # (cases with the yielding log handler) an active member leaves in the very instant a jitter
         # round starts: its notification is delivered at the round's first yield
         act_ = [n_.endpoint for n_ in lb._heap[1:] if n_.endpoint in ss.truth and n_.endpoint not in lb._pending_endpoints]
-        if len(act_) > 1:
+        if len(lb._idle_endpoints) == 1 and list(lb._idle_endpoints)[0] in ss.truth and rng.random() < 0.5:
+          # ... or the only idle member, i.e. the very one the round is about to bring in (the round then
+          # finds it gone and gives up with a KeyError in its own greenlet: harmless, and filtered below)
+          classes.add('chosen-idle-member-leaves-at-jitter-start')
+          chosen_left.append(True)
+          ss.leave(list(lb._idle_endpoints)[0])
+        elif len(act_) > 1:
           classes.add('leave-at-jitter-start')
           jitter_leave.append(True)
           ss.leave(rng.choice(sorted(act_, key=str)))
@@ -566,6 +573,8 @@ class C06(BaseCheck):
     for e in env.errors:
       if jit_close_raises and e['type'] == 'OSError' and 'Transport endpoint is not connected' in str(e['value']):
         continue      # the injected Close() error, escaping from the jitter round's greenlet
+      if chosen_left and e['type'] == 'KeyError' and '_TryExpandAperture' in e['tb']:
+        continue      # the round whose chosen member left while it was logging
       viol('greenlet-error:' + e['type'], 'unhandled exception: %s: %s\n%s' % (e['type'], e['value'], e['tb'][-300:]),
            {'exc': e['type']})
     out.classes = sorted(classes)
